@@ -127,6 +127,16 @@ def setInsert (x : Nat) : List Nat → List Nat
 def spanCount (edges : List (Nat × Nat)) (faces : List (List Nat)) (hfs : List Nat) : Nat :=
   (((hfs.flatMap (hfHalfedges faces)).flatMap (fun h => [heFrom edges h, heTo edges h])).foldl (fun s x => setInsert x s) []).length
 
+/-- 4614b67: no ordered vertex pair is used by two halfedges of the cell (tetrahedral override) -/
+def noParallel (edges : List (Nat × Nat)) (faces : List (List Nat)) (hfs : List Nat) : Bool :=
+  decide (((hfs.flatMap (hfHalfedges faces)).map (fun h => (heFrom edges h, heTo edges h))).Nodup)
+
+/-- 7800c85: in the list the checked hexahedral override is about to store, the two halffaces of each axis share no vertex -/
+def oppPairsDisjoint (edges : List (Nat × Nat)) (faces : List (List Nat)) (l : List Nat) : Bool :=
+  [0, 1, 2].all (fun a =>
+    let front := (hfHalfedges faces (l.getD (2 * a) 0)).map (heFrom edges)
+    ((hfHalfedges faces (l.getD (2 * a + 1) 0)).map (heFrom edges)).all (fun v => !front.contains v))
+
 /-- `MeshT::add_cell(hfs, chk)` on a mesh whose edges are `edges` and whose faces are `faces` -/
 def cellDec (cfg : Cfg) (edges : List (Nat × Nat)) (faces : List (List Nat)) (hfs : List Nat) : Dec :=
   match cfg.kind with
@@ -136,7 +146,7 @@ def cellDec (cfg : Cfg) (edges : List (Nat × Nat)) (faces : List (List Nat)) (h
     else if hfs.any (fun h => faces.length ≤ h / 2) then .fault
     else if hfs.any (fun h => faceValence faces h != 3) then .reject
     else if (hfs.flatMap (hfHalfedges faces)).any (fun h => edges.length ≤ h / 2) then .fault
-    else if spanCount edges faces hfs != 4 then .reject
+    else if spanCount edges faces hfs != 4 || !noParallel edges faces hfs then .reject
     else cellDecBase cfg faces hfs
   | .hex =>
     if hfs.length != 6 then .reject
@@ -147,7 +157,10 @@ def cellDec (cfg : Cfg) (edges : List (Nat × Nat)) (faces : List (List Nat)) (h
     else if !cfg.chk then cellDecBase cfg faces hfs
     else match cfg.hexOrder faces hfs with
       | none => .reject
-      | some l => cellDecBase cfg faces l
+      | some l =>
+        if l.any (fun h => faces.length ≤ h / 2) then .fault
+        else if !oppPairsDisjoint edges faces l then .reject       -- 7800c85
+        else cellDecBase cfg faces l
 
 /-! ### `getCleanLine` -/
 
